@@ -1,6 +1,6 @@
 (* C04 -- No random-number generator state is ever used twice in a run.
-   Statements only; proofs are `exact` of lemmas in Proofs/P_Dist.v. *)
-From SS Require Import Model.Prelude Model.L0_Pcg64 Gen.Gen_Dist Model.L1_Dist Proofs.P_Dist.
+   Statements only; proofs are `exact` of lemmas in Proofs/P_Dist.v and Proofs/P_Pcg.v. *)
+From SS Require Import Model.Prelude Model.L0_Pcg64 Gen.Gen_Dist Model.L1_Dist Proofs.P_Dist Proofs.P_Pcg.
 From Coq Require Import ZArith List Sorted.
 Open Scope Z_scope.
 
@@ -13,11 +13,16 @@ Theorem C04_call_indices_strictly_increasing : forall ops d, good d -> forallb p
 Proof. exact calls_spec. Qed.
 Print Assumptions C04_call_indices_strictly_increasing.
 
-(* distinct indices are distinct generator states, given full period of PCG64 on the jump lattice
-   (pcg_free is a Definition: a hypothesis of this theorem about NumPy's generator, not an axiom) *)
-Theorem C04_distinct_indices_distinct_states : forall g l, pcg_free -> StronglySorted Z.lt l ->
+(* distinct indices are distinct generator states: PCG64's 128-bit LCG (multiplier = 1 mod 4, odd increment) has full period and the jump
+   stride is odd -- proved (Hull-Dobell for modulus 2^128, Proofs/P_Pcg.v), no hypothesis about the generator is left.  The premises (odd
+   increment, state below 2^128) are checked on every logged generator state of the real runs. *)
+Theorem C04_lcg_full_period : forall A c x d e, A mod 4 = 1 -> A <> 1 -> Z.odd c = true -> 0 <= d -> d < e -> e < M128 ->
+  aff_apply (aff_pow (mod128 A, mod128 c) d) x <> aff_apply (aff_pow (mod128 A, mod128 c) e) x.
+Proof. exact lcg_full_period. Qed.
+Print Assumptions C04_lcg_full_period.
+Theorem C04_distinct_indices_distinct_states : forall g l, Z.odd (p_inc g) = true -> 0 <= p_st g < M128 -> StronglySorted Z.lt l ->
   Forall (fun i => 0 <= i < 2 ^ 64) l -> NoDup (map (fun i => p_st (state_of_ind g i)) l).
-Proof. exact sorted_distinct_states. Qed.
+Proof. exact sorted_distinct_states_proved. Qed.
 Print Assumptions C04_distinct_indices_distinct_states.
 
 (* the per-step stride and the unit jump after each call *)
